@@ -78,8 +78,25 @@ def runPack (prog : PStm) (tab : SymTab) (g : Genome) (l : Locus) : Option Bytes
 
 /-- `i_mep::pack` as the model (`Model.packF`) reads it -/
 def packAsModelled : PStm :=
-  .seq (.pushBytes (.castU 16 .opcode) 0 2)
+  .seq (.pushBytes .opcode 0 4)
        (.ifArity .forArgs (.ifParam (.pushBytes .par 0 8) .skip))
+
+/-! ### where opcodes come from -/
+
+/-- `symbol::symbol` initialises `opcode_` from a static counter of an unsigned type -/
+structure CounterSyn where
+  init : Nat             -- opcode_t symbol::opc_count_(init)
+  postIncrement : Bool   -- opc_count_++ (true) / ++opc_count_ (false)
+  bits : Nat             -- width of opcode_t
+deriving DecidableEq, Repr
+
+/-- the opcode of the `k`-th symbol constructed in the process (k = 0, 1, …): the counter is
+    process-wide (every constructed symbol counts, also those of other / destroyed symbol sets)
+    and wraps around silently -/
+def CounterSyn.opcodeOf (c : CounterSyn) (k : Nat) : Nat :=
+  (c.init + k + (if c.postIncrement then 0 else 1)) % 2 ^ c.bits
+
+def counterAsModelled : CounterSyn := ⟨0, true, 32⟩
 
 /-! ### i_mep::hash -/
 
